@@ -16,7 +16,7 @@ KANI = {
  "C24": ("model_checking", "4 (C24)", "u64 parsers of qp-wormhole-inputs: total (no panic) and accept exactly the reference layout predicate with field-exact results, for every vector of the covered lengths; felt-based parsers not covered."),
  "C25": ("model_checking", "4 (C25)", "Integer limb codecs and digest validation over their full input width; edge byte encoding round-trips (hence injective) for every string of length <= 9; 1 MiB cap rejection; quantization only near the cap."),
  "C26": ("model_checking", "4 (C26)", "Compact hash: accepts exactly 8-byte-aligned input whose limbs are all below p (lengths 0,7,8,(9,16,)24 symbolic content), hands exactly the limb sequence to the sponge (injective on the accepted domain), rejects > 1 MiB; the node-hash clauses of C26 are not covered."),
- "C28": ("model_checking", "4 (C28)", "validate_circuit_config == the documented conjunction for every value of the nine numeric knobs (full usize width)."),
+ "C28": ("model_checking", "4 (C28)", "validate_circuit_config == the documented conjunction for every value of the nine numeric knobs (full usize width, Kani); the three public circuit constructors from their MIR (z3, over-approximated paths): the config reaches no other function and no path returns Ok unless validate_circuit_config(&config) returned Ok first; memprof CLI not covered."),
  "C29": ("model_checking", "4 (C29)", "validate_proof_count exact over all usize; layout length exact for counts <= 64; the public-batch parser rejects out-of-range counts (incl. usize::MAX) before layout arithmetic."),
 }
 
@@ -81,7 +81,7 @@ def main():
             "engine": "kani",
             "level_claimed": {"category": cat, "text": text, "design_ref": f"DESIGN.md section {ref}"},
             "level_note": KANI_NOTE,
-            "technique": KANI_TECH,
+            "technique": KANI_TECH + ("; plus symbolic execution of the MIR of the three public circuit constructors into z3 (over-approximated path enumeration, every call opaque) for the policy-before-build clause, counterexamples confirmed by the real constructors" if pid == "C28" else ""),
         })
     for pid, (cat, ref, text) in sorted(MIRPOOL.items()):
         checks.append({
